@@ -155,6 +155,32 @@ type jchan struct {
 	name  string
 	flags bool // compact and colour flags apply
 	mk    func(ds []jdoc) (args []string, files map[string][]byte)
+	docs  func() []jdoc // nil: jdocs()
+}
+
+// A decode tree with 64 bit fields: u64 2^64-1, s64 -2^63, u64 2^53+1 (pool indices).
+const wideProg = `[{"k":"u","n":"a","w":64},{"k":"s","n":"b","w":64},{"k":"u","n":"c","w":64}]`
+const wideBytes = `[255,255,255,255,255,255,255,255, 128,0,0,0,0,0,0,0, 0,32,0,0,0,0,0,1]`
+
+func poolIndex(lit string) int {
+	for i, p := range pool {
+		if p.lit == lit {
+			return i
+		}
+	}
+	panic(lit)
+}
+
+func wideDocs() []jdoc {
+	return []jdoc{{"decode tree {a: u64 0xffffffffffffffff, b: s64 0x8000000000000000, c: u64 0x0020000000000001}", map[string]any{
+		"a": poolIndex("18446744073709551615"), "b": poolIndex("-9223372036854775808"), "c": poolIndex("9007199254740993")}}}
+}
+
+func (c jchan) documents() []jdoc {
+	if c.docs != nil {
+		return c.docs()
+	}
+	return jdocs()
 }
 
 func jqString(s string) string { b, _ := json.Marshal(s); return string(b) }
@@ -188,41 +214,57 @@ func jchans() []jchan {
 		{"file:-V", true, func(ds []jdoc) ([]string, map[string][]byte) {
 			n, f := fileArgs(ds)
 			return append([]string{"-d", "json", "-V", "."}, n...), f
-		}},
+		}, nil},
 		{"file:tovalue", true, func(ds []jdoc) ([]string, map[string][]byte) {
 			n, f := fileArgs(ds)
 			return append([]string{"-d", "json", "tovalue"}, n...), f
-		}},
+		}, nil},
 		{"file:-V-nested", true, func(ds []jdoc) ([]string, map[string][]byte) {
 			n, f := fileArgs(ds)
 			return append([]string{"-d", "json", "-V", "[.]|.[0]"}, n...), f
-		}},
+		}, nil},
 		{"file:tojson", false, func(ds []jdoc) ([]string, map[string][]byte) {
 			n, f := fileArgs(ds)
 			return append([]string{"-d", "json", "-r", "tojson"}, n...), f
-		}},
+		}, nil},
 		{"file:tovalue|tojson", false, func(ds []jdoc) ([]string, map[string][]byte) {
 			n, f := fileArgs(ds)
 			return append([]string{"-d", "json", "-r", "tovalue | tojson"}, n...), f
-		}},
-		{"literal", true, func(ds []jdoc) ([]string, map[string][]byte) { return []string{"-n", lits(ds)}, nil }},
+		}, nil},
+		{"literal", true, func(ds []jdoc) ([]string, map[string][]byte) { return []string{"-n", lits(ds)}, nil }, nil},
 		{"literal|tojson", false, func(ds []jdoc) ([]string, map[string][]byte) {
 			return []string{"-nr", "(" + lits(ds) + ") | tojson"}, nil
-		}},
+		}, nil},
 		{"literal|tojson|fromjson", true, func(ds []jdoc) ([]string, map[string][]byte) {
 			return []string{"-n", "(" + lits(ds) + ") | tojson | fromjson"}, nil
-		}},
+		}, nil},
 		{"string|fromjson", true, func(ds []jdoc) ([]string, map[string][]byte) {
 			return []string{"-n", strs(ds) + " | fromjson"}, nil
-		}},
+		}, nil},
 		{"string|fromjson:-V", true, func(ds []jdoc) ([]string, map[string][]byte) {
 			return []string{"-nV", strs(ds) + " | fromjson"}, nil
-		}},
+		}, nil},
 		{"string|fromjson|tojson", false, func(ds []jdoc) ([]string, map[string][]byte) {
 			return []string{"-nr", strs(ds) + " | fromjson | tojson"}, nil
-		}},
+		}, nil},
 		{"string|fromjson|d", true, func(ds []jdoc) ([]string, map[string][]byte) {
 			return []string{"-n", strs(ds) + " | fromjson | d"}, nil
+		}, nil},
+		{"decode-tree:-V", true, func(ds []jdoc) ([]string, map[string][]byte) {
+			return []string{"-n", "-V", wideBytes + ` | tobytes | decode("vdsl"; {prog: ` + jqString(wideProg) + `})`}, nil
+		}, wideDocs},
+		{"decode-tree:tovalue", true, func(ds []jdoc) ([]string, map[string][]byte) {
+			return []string{"-n", wideBytes + ` | tobytes | decode("vdsl"; {prog: ` + jqString(wideProg) + `}) | tovalue`}, nil
+		}, wideDocs},
+		{"decode-tree:tojson", false, func(ds []jdoc) ([]string, map[string][]byte) {
+			return []string{"-nr", wideBytes + ` | tobytes | decode("vdsl"; {prog: ` + jqString(wideProg) + `}) | tojson`}, nil
+		}, wideDocs},
+		{"decode-tree:fields:-V", true, func(ds []jdoc) ([]string, map[string][]byte) {
+			return []string{"-n", "-V", wideBytes + ` | tobytes | decode("vdsl"; {prog: ` + jqString(wideProg) + `}) | {a, b, c: [.c]}`}, nil
+		}, func() []jdoc {
+			d := wideDocs()
+			m := d[0].want.(map[string]any)
+			return []jdoc{{d[0].text + " | {a, b, c: [.c]}", map[string]any{"a": m["a"], "b": m["b"], "c": []any{m["c"]}}}}
 		}},
 	}
 }
@@ -263,10 +305,10 @@ func jsonFlagSets() [][]string {
 }
 
 func runJSON(r *core.Run, unit *int64) {
-	ds := jdocs()
-	r.Extra("json_documents", len(ds))
+	r.Extra("json_documents", len(jdocs()))
 	r.Extra("json_number_pool", len(pool))
 	for _, ch := range jchans() {
+		ds := ch.documents()
 		fsets := [][]string{nil}
 		if ch.flags {
 			fsets = jsonFlagSets()
@@ -307,6 +349,7 @@ func replayJSON(c JSONCase) bool {
 	var files map[string][]byte
 	for _, ch := range jchans() {
 		if ch.name == c.Channel {
+			ds = ch.documents()
 			_, files = ch.mk(ds)
 		}
 	}
